@@ -44,6 +44,7 @@ def run(ctx):
     ctx.do(rule_constraints)
     ctx.do(rule_super_chain)
     ctx.do(rule_init_pipeline)
+    ctx.do(rule_init_loops)
     ctx.do(rule_clean_contract)
     ctx.do(rule_id_rule)
     ctx.do(rule_regexes)
@@ -428,6 +429,28 @@ def _len_raise_region(fi, var_names=None):
         elif isinstance(t, ast.UnaryOp) and isinstance(t.op, ast.Not) and isinstance(t.operand, ast.Name):
             out.setdefault(t.operand.id, []).append((IntSet([(0, 0)]), ifn, guard_chain(ifn)))
     return out
+
+
+def rule_init_loops(ctx, rule_id="C02.init-pipeline"):
+    """Every loop of the constructor runs over ALL its elements (extensions, properties, defaults): a `break` after the first
+    unregistered extension leaves later registered ones unexamined -- their properties are then stored uncleaned."""
+    run = ctx.run
+    prog = ctx.prog
+    fi = prog.func("stix2.base::_STIXBase.__init__")
+    n = 0
+    for lp in [x for x in body_walk(fi.node) if isinstance(x, ast.For)]:
+        n += 1
+        exits = [x for s_ in lp.body for x in walk_no_nested(s_) if isinstance(x, (ast.Break, ast.Return))]
+        inner = {id(x) for s_ in lp.body for sub in walk_no_nested(s_) if isinstance(sub, (ast.For, ast.While)) and sub is not lp
+                 for b_ in sub.body for x in walk_no_nested(b_) if isinstance(x, ast.Break)}
+        exits = [x for x in exits if id(x) not in inner]
+        run.check(not exits, rule_id, key(fi.module.relpath, fi.qualname, "loop-complete:%s" % short(lp.iter, 50)),
+                  "a loop of the constructor can stop early: the elements after that point (later extensions, later properties) "
+                  "are not examined / cleaned, so their content is stored as given", file=fi.module.relpath,
+                  line=exits[0].lineno if exits else lp.lineno, function=fi.qualname, expected="no break / return inside the loop",
+                  found=short(exits[0]) if exits else None)
+    if n < 4:
+        raise AnalysisError("_STIXBase.__init__: fewer than 4 loops found (%d)" % n)
 
 
 def rule_clean_contract(ctx):
